@@ -159,61 +159,41 @@ def run_config(config, max_states):
     return res
 
 
-def idx_b_hint(owners, log, b):
-    """two messages of a cycle can share a chunk only if they are the same message; prefer the current one"""
-    return log[b]["idx"] if log[b]["idx"] in owners else None
-
-
 def classify(v, config, streams):
-    """Decide, from the violating history itself, whether the wrong output is the
-    'same sequence counter' mixing (frames of two messages of one stream that
-    carry the same counter, every first frame in between undelivered)."""
+    """Decide, from the violating history itself, whether the wrong behaviour is the recorded
+    'same sequence counter' defect: the decoder still holds a record of an earlier message of this
+    stream that carries the same counter as the current message (no first frame with a different
+    counter was accepted in between), so the current first frame was taken for a duplicate and
+    frames of the two messages share one buffer."""
     hist = v["case"]["history"]
     v["case"]["config"] = config
     got = v.pop("_got", None)
     i = v.pop("_stream", None)
     facts = {"mechanism": "other"}
-    v.setdefault("facts", facts)
-    if v["kind"] == "exception" or not isinstance(got, int) or i is None:
-        v["signature"] = f"{v['kind']}:{v['facts'].get('mechanism')}:{config['pad'] is not None}"
+    v["facts"] = facts
+    if v["kind"] == "exception" or i is None or not (isinstance(got, int) or got is None):
+        v["signature"] = f"{v['kind']}:{facts['mechanism']}:{config['name']}"
         return
     st = streams[i]
     # replay the environment for stream i with absolute instance numbers
     inst = 0
-    log = {0: {"idx": 0, "f0": False, "frames": set(), "done": False}}
+    log = {0: {"idx": 0, "f0": False, "frames": set()}}
     for ev in hist:
         if ev[1] != i:
             continue
         if ev[0] == "next":
             inst += 1
-            log[inst] = {"idx": inst % len(st.cycle), "f0": False, "frames": set(), "done": False}
+            log[inst] = {"idx": inst % len(st.cycle), "f0": False, "frames": set()}
         elif ev[0] == "f0":
             log[inst]["f0"] = True
         else:
             log[inst]["frames"].add(ev[2])
     b = inst
-    L = None
-    # cut the observed payload into frame chunks and attribute each to a message index
-    obs_len = max(1, (got.bit_length() + 7) // 8)
-    obs = got.to_bytes(obs_len, "little")
-    sources = set()
-    pad = config["pad"]
-    ok = True
-    bounds = [(0, 6)] + [(6 + 7 * k, 13 + 7 * k) for k in range(0, 4)]
-    for (lo, hi) in bounds:
-        chunk = obs[lo:hi]
-        if not chunk:
-            break
-        owners = [m for m, p in enumerate(st.msgs) if p[lo:hi] and p[lo:hi][:len(chunk)] == chunk[:len(p[lo:hi])]]
-        if not owners:
-            ok = False
-            break
-        sources.update(owners[:1] if idx_b_hint(owners, log, b) is None else [idx_b_hint(owners, log, b)])
     idx_b = log[b]["idx"]
     seq_b = st.cycle[idx_b][0]
-    # chain: earlier messages carrying the same counter as b (at least one of them with its first
-    # frame delivered: the origin of the stale record), with no delivered first frame of a
-    # different counter between them and b (that would have restarted the buffer)
+    pad = config["pad"]
+    # chain: earlier messages carrying the same counter as b, back to (excluding) the last delivered
+    # first frame with a different counter (which restarted the buffer)
     chain = []
     for k in range(b - 1, -1, -1):
         same = st.cycle[log[k]["idx"]][0] == seq_b
@@ -221,15 +201,50 @@ def classify(v, config, streams):
             break
         if same:
             chain.append(k)
-    if ok and any(log[k]["f0"] for k in chain) and sources <= ({log[k]["idx"] for k in chain} | {idx_b}):
-        facts["mechanism"] = "same_seq_mix"
-    if pad is not None and facts["mechanism"] == "other":
-        # does the observed payload equal the expected bytes followed by padding only?
-        exp = st.msgs[idx_b]
-        if obs[:len(exp)] == exp and len(obs) > len(exp) and set(obs[len(exp):]) <= {pad}:
-            facts["mechanism"] = "padding_leak"
-    v["facts"] = facts
+    stale_record = any(log[k]["f0"] for k in chain)
+    allowed_msgs = {log[k]["idx"] for k in chain} | {idx_b}
+    if got is None:
+        # expected a message, got nothing: the recorded defect if a stale same-counter record exists
+        if stale_record:
+            facts["mechanism"] = "same_seq_mix"
+    else:
+        obs_len = max(1, (got.bit_length() + 7) // 8)
+        obs = got.to_bytes(obs_len, "little")
+        sources = explain(obs, st, allowed_msgs, pad)
+        if stale_record and sources is not None:
+            facts["mechanism"] = "same_seq_mix"
+        elif pad is not None:
+            exp = st.msgs[idx_b]
+            if obs[:len(exp)] == exp and len(obs) > len(exp) and set(obs[len(exp):]) <= {pad}:
+                facts["mechanism"] = "padding_leak"
     v["signature"] = f"{v['kind']}:{facts['mechanism']}:{config['name']}"
+
+
+def explain(obs, st, allowed_msgs, pad):
+    """can the observed payload be written as a concatenation, in increasing frame index, of the
+    data parts of frames of the allowed messages (the last part possibly cut short)?  -> set of
+    message indices used, or None"""
+    parts = {}
+    for m in allowed_msgs:
+        for j, fr in enumerate(st.frames[m]):
+            parts[(m, j)] = bytes(fr[2:] if j == 0 else fr[1:])
+
+    def rec(pos, last_j, used):
+        if pos >= len(obs):
+            return used
+        for (m, j), data in parts.items():
+            if j <= last_j or not data:
+                continue
+            rest = obs[pos:]
+            if rest[:len(data)] == data:
+                r = rec(pos + len(data), j, used | {m})
+                if r is not None:
+                    return r
+            elif len(rest) < len(data) and data[:len(rest)] == rest:
+                return used | {m}            # cut at the announced length
+        # trailing zero bytes of the observation are invisible (integer comparison)
+        return None
+    return rec(0, -1, frozenset())
 
 
 def configs(ctx):
